@@ -7,3 +7,6 @@ open LhasaV.Props.C18
 #print axioms test_output_printable
 #print axioms extract_output_printable
 #print axioms stderr_printable
+#print axioms safe_class_matches_source
+#print axioms os_names_match_source
+#print axioms progress_len_matches_source
